@@ -15,7 +15,24 @@ _KE_ASSUME = ["cryptography is symbolic/ideal in the model (Noise NN, ChaCha20-P
               "restricted to the constructions of `Buildable`",
               "channel operations are lock-step with detached timers; wall-clock behaviour (keep-alive, restart) is checked by the real-time oracle and is exploration"]
 
+_HUB_STREAM = {"name": "hub", "quick": 900, "thorough": 20000, "thorough_seeds": 3, "stateful": True, "seq_start": ("hub-new", "q-new")}
+_HUB_RULE = ("scenarios on real TellHub / AskHub / Queue objects: up to 6 receivers and 6 deliverers as goroutines whose callbacks are "
+             "held open by the harness, cancellations, close (also repeated) and callback releases in random order; after each op "
+             "the harness waits for quiescence and reports every participant's state (blocked / in callback with message d / "
+             "returned ok|ctx|closed|nil); the model takes forced moves itself and follows the implementation only where the LTS "
+             "has a genuine choice, checking the move is enabled; queue scenarios: deliver at MTU boundaries, receive, cancel, "
+             "purge, close. The oracle additionally races 1-5 producers and 1-5 receivers without any imposed order.")
+_HUB_ASSUME = ["Go runtime semantics are modelled, not verified: a select picks one ready case atomically, an unbuffered channel "
+               "operation is a rendezvous, close wakes every parked select that offers the channel",
+               "wall-clock promptness and goroutine release are measured by the oracle and reported as exploration"]
+
 PROPS = {
+    "C13": {"streams": [_HUB_STREAM], "oracles": ["hub"], "rule": _HUB_RULE, "assumptions": _HUB_ASSUME, "oracle_n": {"quick": 150, "thorough": 3000}},
+    "C12": {"streams": [_HUB_STREAM], "oracles": ["hub"], "rule": _HUB_RULE, "assumptions": _HUB_ASSUME, "oracle_n": {"quick": 150, "thorough": 3000}},
+    "C11": {"streams": [_HUB_STREAM], "oracles": ["hub"], "rule": _HUB_RULE, "assumptions": _HUB_ASSUME, "oracle_n": {"quick": 150, "thorough": 3000}},
+    "C14": {"streams": [_HUB_STREAM], "oracles": ["hub"], "rule": _HUB_RULE, "level": "proof",
+            "assumptions": _HUB_ASSUME + ["data-race freedom under the Go memory model is NOT claimed (no model represents happens-before); "
+                                          "only buffer ownership in the queue and hubs is proved"], "oracle_n": {"quick": 150, "thorough": 3000}},
     "C02": {"streams": [_KE_STREAM], "oracles": ["ke"], "rule": _KE_RULE, "assumptions": _KE_ASSUME,
             "oracle_n": {"quick": 3000, "thorough": 60000}},
     "C03": {"streams": [_KE_STREAM], "oracles": ["ke"], "rule": _KE_RULE, "assumptions": _KE_ASSUME,
